@@ -27,7 +27,7 @@ def scenario(tier):
             b.require(r.exit == 0, "setup-create", "%s %s" % (c, r))
         roots = sorted(set(chosen + ["R"]))
         b.require(cm.history_roots(b, "R") == [r for r in roots if r != "R"], "setup-roots", str(cm.history_roots(b, "R")))
-        mode = sym.choose("mode", ["folder", "folder-n", "sf", "folder-dr-ignoring-B"])
+        mode = sym.choose("mode", ["folder", "folder-n", "sf", "folder-dr-ignoring-B", "folder-after-middle-history-stored-a-pattern"])
         fmts = sym.choose("formats", [["md5"], ["xxh64", "c4"]])
         names_before = {r: b.manifest_names(r) for r in roots}
         if mode == "sf":
@@ -43,6 +43,19 @@ def scenario(tier):
             b.mkfile("R/A/extra.txt", 70)
             r = b.run("create", root="R", h=fmts, dr=True, i=["B"])
             expected_writers = {x for x in roots if not cm.under(x, "R/B")}
+        elif mode == "folder-after-middle-history-stored-a-pattern":
+            # an earlier run on the history in the middle of a stack stored a pattern that names the folder of the history below it;
+            # the run from the top does not carry that pattern: every history still gets its generation, with its own files
+            mids = [x for x in roots if x != "R" and any(y != x and cm.under(y, x) for y in roots)]
+            if not mids:
+                sym.assume(False)
+            mid = mids[0]
+            below = sorted(y for y in roots if y != mid and cm.under(y, mid))[0]
+            r = b.run("create", root=mid, h=fmts, i=[cm.rel_to(below, mid).split("/")[0]])
+            b.require(r.exit == 0 and r.exc is None, "setup-create", str(r))
+            names_before = {x: b.manifest_names(x) for x in roots}
+            r = b.run("create", root="R", h=fmts)
+            expected_writers = set(roots)
         else:
             r = b.run("create", root="R", h=fmts, n=(mode == "folder-n"))
             expected_writers = set(roots)
